@@ -14,6 +14,23 @@ def cfg(name, **kw):
     return name, '\n'.join(lines) + '\n'
 
 
+def model_part(rep):
+    """Level 2: SubjectImpl.tla (publish / replay subject at lock grain) explored exhaustively by TLC; the two 'optimisations' are expected to break an invariant."""
+    for cfgname in ['SubjectImpl_publish.cfg', 'SubjectImpl_replay.cfg']:
+        r = vlib.run_tlc('SubjectImpl', cfgname, timeout=900, deadlock=False)
+        vlib.tlc_must_pass(r, cfgname)
+        rep.add_states(r)
+        rep.parts['tlc:' + cfgname] = dict(ok=r.ok, violated=r.violation, generated=r.generated, distinct=r.distinct)
+        if r.violation:
+            rep.inconclusive.append('Level-2 model %s violates %s (model only)' % (cfgname, r.violation))
+    for cfgname, inv in [('SubjectImpl_unlockedbcast.cfg', 'SameOrder'), ('SubjectImpl_unlockedreplay.cfg', 'ReplayExact')]:
+        r = vlib.run_tlc('SubjectImpl', cfgname, timeout=900, deadlock=False)
+        rep.add_states(r)
+        rep.parts['tlc:' + cfgname] = dict(violated=r.violation, note='design hazard predicted by the model: delivering after unlocking / replaying before locking breaks %s; the real subjects are judged by SubjectLin.tla on recorded histories' % inv)
+        if r.violation != inv:
+            rep.inconclusive.append('%s was expected to violate %s, TLC reports %s' % (cfgname, inv, r.violation))
+
+
 def run_seq(rep, pid, thorough):
     cfgs = [cfg('subjects-seq', MaxOps=5 if thorough else 4)]
     if thorough:
